@@ -1,5 +1,5 @@
 """C16 — expansion is deterministic."""
-import json, os, random, subprocess, time
+import json, os, random, re, subprocess, time
 from .. import common, attr, gen
 
 
@@ -50,6 +50,14 @@ def main(tier):
         orng = random.Random(common.seed() + 7)
         cases += [(20000 + i, s) for i, s in enumerate(orng.sample(off, min(len(off), n_into * 3)))]
         cases += [(30000 + i, compound_offence(orng, i)) for i in range(n_into)]
+        # the same definitions once more, all of them called `Same`: state kept between expansions under the name of a type
+        # (a cache of something read from the attributes) shows when other processes meet them in another order
+        same = []
+        for i, s in cases[:n_valid]:
+            m = re.search(r"\b(?:struct|enum|union)\s+(T\d+)\b", s)
+            if m and len(same) < n_into:
+                same.append((40000 + i, re.sub(r"\b%s\b" % m.group(1), "Same", s)))
+        cases += same
         runs = [attr.expand_real(cases, repeat=repeat)]
         for k in range(procs - 1):
             # a fresh process (fresh hash seeds) that meets the inputs in another order: what was expanded before differs
@@ -112,7 +120,8 @@ def main(tier):
     tie["failing"] = tie["failing"][:4]
     tie["broken"] = tie["broken"][:3]
     tie["rule"] = ("valid definitions of every trait (pool of the behavioural generators) plus definitions with 2-4 Into targets, plus refused definitions (a sample of the offence clauses of C13 and definitions with "
-                   "several independent offences, e.g. two or more different traits each given twice: the diagnostic must be the same one every time); each "
+                   "several independent offences, e.g. two or more different traits each given twice: the diagnostic must be the same one every time), plus "
+                   "a copy of part of the valid pool in which every type is called `Same` (state kept between expansions under a type's name); each "
                    "expanded %d times in one process and once in each of %d further processes (fresh hash seeds, the inputs met in reversed / shuffled order so that earlier expansions differ); all token streams "
                    "and diagnostics must coincide, and the impl order must be the model's; a sample of the accepted inputs is also expanded by the real proc-macro in several rustc "
                    "processes (-Zunpretty=expanded) and the printed expansions compared. distinct_nontrivial = inputs with >=2 impl items" % (repeat + 1, procs - 1))
